@@ -386,11 +386,17 @@ func (e *Exec) fnMod(f *ssa.Function, mod map[string]Sort, seen map[*ssa.Functio
 }
 
 // modOfContract: declared modifies clause, or the syntactic write set of the body
-var modOfContractMemo = map[*Contract]map[string]Sort{}
+type modKey struct {
+	c     *Contract
+	hasFn bool
+}
+
+var modOfContractMemo = map[modKey]map[string]Sort{}
 var modOfContractBusy = map[*Contract]bool{}
 
 func (e *Exec) modOfContract(c *Contract, fn *ssa.Function) (mod map[string]Sort) {
-	if m, ok := modOfContractMemo[c]; ok {
+	mk0 := modKey{c, fn != nil}
+	if m, ok := modOfContractMemo[mk0]; ok {
 		cp := make(map[string]Sort, len(m))
 		for k, v := range m {
 			cp[k] = v
@@ -407,7 +413,7 @@ func (e *Exec) modOfContract(c *Contract, fn *ssa.Function) (mod map[string]Sort
 		for k, v := range mod {
 			cp[k] = v
 		}
-		modOfContractMemo[c] = cp
+		modOfContractMemo[mk0] = cp
 	}()
 	mod = map[string]Sort{}
 	defer func() {
@@ -564,6 +570,9 @@ func (e *Exec) enterLoopHeader(st *State, fr *Frame, lp *Loop) bool {
 	spec, ctr := e.loopSpec(fr.fn, lp.ord)
 	idxCell, n, isRange := e.rangeLoopParts(fr, lp)
 	useCut := spec != nil && len(spec.Invs) > 0
+	if isRange && n.IsLit() && fr.fn != e.top {
+		useCut = false // inlined helper ranging over a literal list: unroll
+	}
 	if !useCut && isRange && !n.IsLit() {
 		useCut = true // automatic cut with the range-index bounds only
 	}
@@ -619,12 +628,16 @@ func (e *Exec) enterLoopHeader(st *State, fr *Frame, lp *Loop) bool {
 		if expr == "none" {
 			return IntLit(0)
 		}
-		ex, err := parseSpecExpr(expr)
+		isObj := strings.HasPrefix(expr, "obj:")
+		ex, err := parseSpecExpr(strings.TrimPrefix(expr, "obj:"))
 		if err != nil {
 			panic(sperr("%v", err))
 		}
 		ctx := e.loopCtx(st, fr, ctr)
 		v, _ := ctx.eval(ex)
+		if isObj {
+			return e.term(v) // the object itself (and its sub-objects) may be written
+		}
 		return SlArr(e.term(v))
 	}
 	var autoFrame []string
@@ -639,7 +652,7 @@ func (e *Exec) enterLoopHeader(st *State, fr *Frame, lp *Loop) bool {
 				}
 			}
 			for name, srt := range curMod {
-				if _, ok := declared[name]; !ok && name != "*" && srt.IsArr() && !restricted[name] {
+				if _, ok := declared[name]; !ok && name != "*" && srt.IsArr() && !restricted[name] && !strings.HasPrefix(name, "G!") {
 					autoFrame = append(autoFrame, name)
 				}
 			}
